@@ -7,7 +7,7 @@
    user's constraint as an arbitrary function of the original-space image [inverse_transf row] returning a
    number (feasible = value <= 0). *)
 From Coq Require Import ZArith QArith List Bool String.
-From PV Require Import Model.Filter Model.FilterSrc Proofs.FilterSourceProofs gen.Src_filter.
+From PV Require Import Model.Filter Model.FilterSrc Proofs.FilterProofs Proofs.FilterSourceProofs gen.Src_filter.
 Import ListNotations.
 Open Scope Z_scope.
 
@@ -44,6 +44,30 @@ Theorem C17_order_of_steps_is_source :
     src_stage_writes = ["if proj"; "assign"; "if R.size > 0"; "if non_box_cons is not None"]%string.
 Proof. exact order_of_steps_is_source. Qed.
 Print Assumptions C17_order_of_steps_is_source.
+
+(* Consequently the clauses of Props/C17.v that hold of the model hold of the SOURCE PROGRAM, for all inputs: every row
+   handed on is inside the box (with projection: if the box is non-empty), has a constraint value <= 0, is the (projected)
+   image of an input row, and the rows are pairwise distinct, also after rounding to the half-tolerance lattice. *)
+Theorem C17_source_properties :
+  forall (XT : Type) (inverse_transf : qrow -> XT) (U : list qrow) (lb ub : list bnd) (tol_mesh : Q)
+         (fl_X : list qrow) (fl_X_max_idx : Z) (proj : bool) (non_box_cons : option (XT -> Q)),
+    let out := src_filter inverse_transf U lb ub tol_mesh fl_X fl_X_max_idx proj non_box_cons in
+    ((proj = true -> box_ok lb ub) -> Forall (in_box lb ub) out) /\
+    (forall c, non_box_cons = Some c -> Forall (fun r => Qle_bool (c (inverse_transf r)) (0 # 1) = true) out) /\
+    NoDup out /\ NoDup (map (rkey (half_tol tol_mesh)) out) /\
+    Forall (fun r => exists u, In u U /\ r = (if proj then clamp_row lb ub u else u)) out.
+Proof. exact source_properties. Qed.
+Print Assumptions C17_source_properties.
+
+(* The CALL SITES (a pin of closed data, regenerated from every module of the package outside pybads/testing): contraints_check
+   is defined once, imported only from pybads.function_logger, never patched, and called at exactly four places - the
+   initial design, the search step, the poll step (against the hard bounds, without projection) and every generation of
+   the ES search - each of the form `<set> = contraints_check(<set>, lb, ub, tol_mesh, <logger>, <proj>, <non_box_cons>)`
+   with the user's constraint passed on, the snap to the search grid BEFORE the call, and no sibling statement
+   rewriting the filtered set after it (the ES loop re-seeds its next generation, which is filtered again). *)
+Theorem C17_call_sites_are_source : src_filter_calls = model_filter_calls.
+Proof. exact filter_calls_are_model. Qed.
+Print Assumptions C17_call_sites_are_source.
 
 (* Non-vacuity: the generated program run on the example of Props/C17.v (projection creates a duplicate,
    two candidates collapse after rounding, one is infeasible, one is in the log, table with an unused row). *)
